@@ -455,6 +455,9 @@ func H_C06_One() { c06One(false) }
 func H_C10_One() { c06One(true) }
 
 func c06One(aliasCheck bool) {
+	if aliasCheck {
+		pbC10Prelude()
+	}
 	first, _ := mkOne("a_")
 	second, which := mkOne("b_")
 	in := expOne(pbBuf(), first)
@@ -538,6 +541,9 @@ func H_C06_Maps_Kinds() { c06MapsKinds(false) }
 func H_C10_Maps_Kinds() { c06MapsKinds(true) }
 
 func c06MapsKinds(aliasCheck bool) {
+	if aliasCheck {
+		pbC10Prelude()
+	}
 	m0 := &Maps{}
 	which := nondetInt("which")
 	verifAssume(which >= 1)
@@ -578,6 +584,9 @@ func H_C06_Mix() { c06Mix(false) }
 func H_C10_Mix() { c06Mix(true) }
 
 func c06Mix(aliasCheck bool) {
+	if aliasCheck {
+		pbC10Prelude()
+	}
 	src := mkMix("")
 	in := expMix(pbBuf(), src)
 	m := &Mix{A: 9, B: "old", C: []uint32{1, 2}, D: &Leaf{A: 1}, E: true, G: []byte{7}} // pre-populated destination
@@ -680,4 +689,14 @@ func pbC04Long(m pbMsg) {
 	verifAssert2(err == nil, len(out) == sz, "len(Marshal()) equals Size()")
 	verifAssertBytesEq(buf, out, "MarshalTo writes the bytes Marshal returns")
 	verifReach("end")
+}
+
+
+// C09 concurrent clause on the composites
+func H_C09_Own_Msgs() { pbC09Own(mkMsgs("", 2)) }
+func H_C09_Own_Node() { pbC09Own(mkNode("", 2)) }
+func H_C09_Own_One()  { m, _ := mkOne(""); pbC09Own(m) }
+func H_C09_Own_Mix()  { pbC09Own(mkMix("")) }
+func H_C09_Own_Maps() {
+	pbC09Own(&Maps{Ss: map[string]int32{string(pbBytes1("k")): nondetI32("v")}, Sl: map[string]*Leaf{"a": mkLeaf("l_", false)}})
 }
